@@ -36,6 +36,8 @@ PLANS = {
         (3, 2, 2, "m2", "m2", "two", "probe", "probe0", "probe0", "one", "some", "all", 12),
         (3, 3, 2, "m2", "m1", "two", "probe0", "probe0", "one", "one", "some", "some", 16),
         (3, 3, 3, "m2", "m2", "two", "probe0", "probe0", "probe0", "one", "some", "some", 16),
+        # 4-index first operand (2 free + 2 contracted legs): fused path with holes
+        (4, 2, 2, "m1", "m1", "two", "probe", "probe0", "probe0", "one", "all", "some", 8),
     ],
 }
 PLANS["thorough"] = PLANS["quick"] + [
